@@ -1518,6 +1518,7 @@ N9_DEFS = {
 def rule_N9(ctx):
     """every element is created with path = its parent's path + its own name and with its parent, so export paths nest
     <level>/<level>/<name>"""
+    from .util import evaluator as _evn
     for path, q, cls, (pk, ppos), want_path, want_parent in N9_SITES:
         fn = ctx.fn(path, q, "N9")
         cs = [c for c in own_nodes(fn) if isinstance(c, ast.Call) and isinstance(c.func, ast.Name) and c.func.id == cls]
@@ -1526,7 +1527,7 @@ def rule_N9(ctx):
             continue
         c = cs[0]
         # decided on the value-flow terms of the constructor call on every path that reaches it
-        from .util import evaluator as _evn, call_parts as _cp
+        from .util import call_parts as _cp
         from ..core import terms as _T
         params = _T.SIGS.get(cls) or ()
         okp = okr = True
@@ -1575,14 +1576,90 @@ def rule_N9(ctx):
         ctx.ob("N9", c, f"{cls}: path = parent's path + own name", okp, detp, inst=f"{cls}:path")
         ctx.ob("N9", c, f"{cls}: parent = the directory that realises it", okr, detr, inst=f"{cls}:parent")
     pc = ctx.fn("smpl_extract/util/constructs.py", "pull_child_info", "N9")
-    t = full(pc)
-    ok = "parent_path = parent.path" in t and "resultant_path = parent_path + [name]" in t and "next_path=resultant_path" in t and "parent_path=parent_path" in t \
-        and "parent = _pull_from_context(context, '_elem_parent', None)" in t and "name = _pull_from_context(context, '_elem_name', None)" in t
-    ctx.ob("N9", pc, "pull_child_info: parent from the context, parent_path = parent.path, next_path = parent_path + [name]", ok, "", inst="pull_child_info")
+    from .util import call_parts as _cpp
+    from ..core import terms as _TT
+    cpar, npar = pc.args.args[0].arg, pc.args.args[1].arg
+    PARENT = f"_pull_from_context({cpar},'_elem_parent',None)"
+    NAMEC = f"_pull_from_context({cpar},'_elem_name',None)"
+    ROUT = f"_pull_from_context({cpar},'_elem_routines',[])"
+    ok, det, n_ret = True, "", 0
+    for p_ in run_paths(ctx, pc, rule="N9", limit=4000):
+        if p_.end != "return" or p_.ret is None:
+            continue
+        fname, pos, kw = _cpp(p_.ret.key())
+        sig = _TT.SIGS.get("ChildInfo") or ("parent", "parent_path", "next_path", "routines", "name")
+        for i_, v_ in enumerate(pos):
+            if i_ < len(sig):
+                kw.setdefault(sig[i_], v_)
+        truth = {}
+        for c_, t_, _n in p_.conds:
+            m_ = re.fullmatch(r"(Is|IsNot)\((.+),None\)", c_)
+            if m_:
+                is_none = (m_.group(1) == "Is") == t_
+                if m_.group(2) in truth and truth[m_.group(2)] != is_none:
+                    truth["<contradiction>"] = True
+                truth[m_.group(2)] = is_none
+        if truth.get("<contradiction>"):
+            continue  # e.g. `name is None` false and `name is not None` false
+        n_ret += 1
+        want_name = npar if truth.get(npar) is False else (NAMEC if truth.get(npar) is True else None)
+        strip = lambda x: x.replace("[] + ", "").replace(" + []", "") if x is not None else None  # noqa: E731
+        want_pp = PARENT + ".path" if truth.get(PARENT) is False else ("[]" if truth.get(PARENT) is True else None)
+        good = fname == "ChildInfo" and kw.get("parent") == PARENT and kw.get("routines") == ROUT and want_name is not None and kw.get("name") == want_name \
+            and want_pp is not None and strip(kw.get("parent_path")) == want_pp
+        if good:
+            nn = truth.get(want_name)
+            if nn is False:
+                want_np = _TT.parse_key(f"[{want_name}]") + (_TT.parse_key(want_pp) if want_pp != "[]" else _TT.Term())
+                got_np = _TT.parse_key(strip(kw.get("next_path", "?")))
+                good = got_np == want_np
+            elif nn is True:
+                good = strip(kw.get("next_path")) == want_pp
+            else:
+                good = False
+        if not good:
+            ok, det = False, f"under [{p_.cond_key()[:100]}] returns {p_.ret.key()[:200]}"
+    ok = ok and n_ret >= 4
+    ctx.ob("N9", pc, "pull_child_info: parent from the context, parent_path = parent.path, next_path = parent_path + [name]", ok, det, inst="pull_child_info")
     pf = ctx.fn("smpl_extract/util/constructs.py", "_pull_from_context", "N9")
-    t = full(pf)
-    ok = "if key in current_context.keys()" in t and "current_context = current_context['_']" in t
-    ctx.ob("N9", pf, "context values are looked up in the context and its enclosing context", ok, "", inst="_pull_from_context")
+    from .streams import _walk as _wk
+    fcfg = ctx.cfg(pf, "N9")
+    cpar2, kpar, dpar = [a_.arg for a_ in pf.args.args][:3]
+    floops = [f_ for f_ in own_nodes(pf) if isinstance(f_, (ast.For, ast.While))]
+    ok, det = len(floops) == 1, "lookup loop not found"
+    if ok:
+        lp_ = fcfg.loop_of(floops[0])
+        cur = None
+        seen_k = set()
+        for kind, path, edge in fcfg.iteration_paths(lp_):
+            pr = _wk(ctx, pf, fcfg, path)
+            ck = [(c_.replace("~", ""), t_) for c_, t_, _n in pr.conds]
+            hit = [c_ for c_, t_ in ck if re.fullmatch(rf"In\({kpar},\((\w+)\)\.keys\(\)\)|In\({kpar},(\w+)\)", c_) and t_]
+            miss = [c_ for c_, t_ in ck if re.fullmatch(rf"In\({kpar},\((\w+)\)\.keys\(\)\)|In\({kpar},(\w+)\)", c_) and not t_]
+            rets = [s_ for s_ in pr.steps if s_.kind == "return"]
+            if hit:
+                cur = re.search(r"\((\w+)\)\.keys|,(\w+)\)$", hit[0])
+                cur = cur.group(1) or cur.group(2)
+                rv = _evn(ctx, pf, rets[0].env).ev(rets[0].ast.value).key().replace("~", "") if rets and rets[0].ast.value is not None else None
+                if rv != f"sub({cur},{kpar})":
+                    ok, det = False, f"a present key yields `{rv}`"
+                seen_k.add("found")
+            elif kind == "back" and miss:
+                cur = re.search(r"\((\w+)\)\.keys|,(\w+)\)$", miss[0])
+                cur = cur.group(1) or cur.group(2)
+                nv = pr.env.get(cur)
+                if nv is None or nv.key().replace("~", "") != f"sub({cur},'_')":
+                    ok, det = False, f"the search continues in `{nv.key() if nv is not None else None}`, not in the enclosing context"
+                seen_k.add("outer")
+        it_ = floops[0].iter if isinstance(floops[0], ast.For) else None
+        ok = ok and seen_k == {"found", "outer"} and it_ is not None and norm(it_) in ("range(2)",)
+        # starts at the context itself; falls back to the default
+        rp = [p_ for p_ in run_paths(ctx, pf, rule="N9") if p_.end == "return" and not p_.conds]
+        ok = ok and all(p_.ret is not None and p_.ret.key() == dpar for p_ in run_paths(ctx, pf, rule="N9") if p_.end == "return" and not any(
+            c_.startswith("In(") and t_ for c_, t_, _n in p_.conds))
+        starts = [a_ for a_ in pf.body if isinstance(a_, ast.Assign) and cur is not None and norm(a_.targets[0]) == cur]
+        ok = ok and len(starts) == 1 and norm(starts[0].value) == cpar2
+    ctx.ob("N9", pf, "context values are looked up in the context and its enclosing context", ok, det, inst="_pull_from_context")
     cd = ctx.fn("smpl_extract/cdda/image.py", "CompactDiskAudioImageAdapter.from_bin_cue", "N9")
     cs = [c for c in own_nodes(cd) if isinstance(c, ast.Call) and norm(c.func) == "AudioTrack"]
     ok = len(cs) == 2 and all({k.arg: norm(k.value) for k in c.keywords}.get("_parent") == "image" and {k.arg: norm(k.value) for k in c.keywords}.get("_path") == "track_path" for c in cs)
@@ -1590,15 +1667,63 @@ def rule_N9(ctx):
     ok = ok and len(tp) == 2 and all(norm(a.value) == "element_path + [title]" for a in tp)
     ctx.ob("N9", cd, "CDDA tracks: parent = the image, path = image path + [title]", ok, "", inst="AudioTrack")
     ve = ctx.fn("smpl_extract/roland/s7xx/volume_entry.py", "VolumeEntry.path", "N9")
-    ok = "result = [self.name]" in full(ve)
+    vr = [p_ for p_ in run_paths(ctx, ve, rule="N9") if p_.end == "return"]
+    ok = bool(vr) and all(p_.ret is not None and p_.ret.key() == "[self.name]" for p_ in vr)
     ctx.ob("N9", ve, "Roland volumes sit directly under the image: path = [name]", ok, "", inst="VolumeEntry.path")
     pe = ctx.fn("smpl_extract/roland/s7xx/partial_entry.py", "PartialEntry.sample_entries", "N9")
-    t = full(pe)
-    ok = "sample_entry._parent = self" in t and "new_path = path + [sample_entry.path[-1]]" in t and "sample_entry._path = new_path" in t
-    ctx.ob("N9", pe, "samples shown under a partial are re-parented to it", ok, "", inst="partial-reparent")
+    pcfg = ctx.cfg(pe, "N9")
+    ploops = [f_ for f_ in own_nodes(pe) if isinstance(f_, ast.For) and any(isinstance(n_, ast.Attribute) and n_.attr in ("_parent", "_path") and isinstance(n_.ctx, ast.Store)
+                                                                        for n_ in ast.walk(f_))]
+    ok, det = len(ploops) == 1, "re-parenting loop not found"
+    if ok:
+        n_it = 0
+        for kind, path, edge in pcfg.iteration_paths(pcfg.loop_of(ploops[0])):
+            if kind != "back":
+                continue
+            # values before the loop (e.g. `path = self.path`) are part of the environment
+            pre = {}
+            for st_ in pe.body if not isinstance(pe.body[0], ast.If) else pe.body[0].body:
+                if st_ is ploops[0]:
+                    break
+                if isinstance(st_, ast.Assign) and len(st_.targets) == 1 and isinstance(st_.targets[0], ast.Name):
+                    pre[st_.targets[0].id] = _evn(ctx, pe, pre).ev(st_.value)
+            pr = _wk(ctx, pe, pcfg, path, env0=pre, keep=tuple(pre))
+            n_it += 1
+            apps = [(c_, e_) for c_, e_, st_ in calls_on(pr) if isinstance(c_.func, ast.Attribute) and c_.func.attr == "append"]
+            if len(apps) != 1:
+                ok, det = False, f"{len(apps)} entries collected per reference"
+                continue
+            X = _evn(ctx, pe, apps[0][1]).ev(apps[0][0].args[0]).key()
+            par = [v_.key() for k_, v_ in pr.env.items() if k_.endswith("._parent") and _evn(ctx, pe, pr.env).ev(ast.parse(k_[:-len("._parent")], mode="eval").body).key() == X]
+            pth = [v_ for k_, v_ in pr.env.items() if k_.endswith("._path") and _evn(ctx, pe, pr.env).ev(ast.parse(k_[:-len("._path")], mode="eval").body).key() == X]
+            want_path = _TT.parse_key("self.path") + _TT.Term.atom(f"[sub({X}.path,-1)]")
+            if par != ["self"] or len(pth) != 1 or pth[0] != want_path:
+                ok, det = False, f"entry `{X}` gets parent {par} and path {[v_.key() for v_ in pth]}"
+        ok = ok and n_it >= 1
+    ctx.ob("N9", pe, "samples shown under a partial are re-parented to it", ok, det, inst="partial-reparent")
     for prop in ("path", "parent"):
         f = ctx.fn("smpl_extract/base.py", f"Element.{prop}", "N9")
-        ok = f"result = self._{prop}" in full(f)
+        fr = [p_ for p_ in run_paths(ctx, f, rule="N9") if p_.end == "return"]
+        # the stored value when there is one; the empty default otherwise (getattr(self, name, default) spelling included)
+        ok = bool(fr)
+        n_stored = 0
+        for p_ in fr:
+            has = None
+            for c_, t_, _n in p_.conds:
+                if c_ == f"truthy(hasattr(self,'_{prop}'))":
+                    has = t_
+                elif c_ == f"not(truthy(hasattr(self,'_{prop}')))":
+                    has = not t_
+            rk = p_.ret.key() if p_.ret is not None else None
+            if rk == f"self._{prop}" and has is not False:
+                n_stored += 1
+            elif rk in (f"getattr(self,'_{prop}',[])", f"getattr(self,'_{prop}',None)"):
+                n_stored += 1
+            elif has is False and rk in ("[]", "None"):
+                pass
+            else:
+                ok = False
+        ok = ok and n_stored >= 1
         ctx.ob("N9", f, f"Element.{prop} returns the stored _{prop}", ok, "", inst=f"Element.{prop}")
     ep = ctx.fn("smpl_extract/base.py", "Element.export_path", "N9")
     cc = _chain_climb(ctx, ep, "N9")
